@@ -5,6 +5,7 @@ namespace Bct.Modularity
 open Finset
 
 variable {n : ℕ}
+variable {g0 : GState}
 
 /-- in a finite set of integers, the numbers of smaller elements take every value below the cardinality -/
 theorem card_filter_lt_surj (S : Finset ℤ) (r : ℕ) (hr : r < S.card) :
@@ -129,53 +130,13 @@ theorem rank_active (m m' : Lab n) (nh : ℕ) (hA : ActiveInv nh m) (hm' : toLab
 
 /-! ## sweeps stay inside the active range -/
 
-theorem argmaxFirst_lt (f : Fin n → ℚ) (lim : ℕ) (b : Fin n) (v : ℚ)
-    (h : argmaxFirst f lim = some (b, v)) : b.val < lim := by
-  unfold argmaxFirst at h
-  have key : ∀ (l : List (Fin n)) (init : Option (Fin n × ℚ)),
-      (∀ b v, init = some (b, v) → b.val < lim) →
-      ∀ b v, l.foldl (fun best t =>
-        if t.val < lim then
-          match best with
-          | none => some (t, f t)
-          | some (b, v) => if v < f t then some (t, f t) else some (b, v)
-        else best) init = some (b, v) → b.val < lim := by
-    intro l
-    induction l with
-    | nil => intro init hi b v h; exact hi b v h
-    | cons t l ih =>
-      intro init hi b v h
-      simp only [List.foldl_cons] at h
-      refine ih _ ?_ b v h
-      intro b' v' h'
-      split_ifs at h' with hl
-      · cases hinit : init with
-        | none => simp [hinit] at h'; rcases h' with ⟨rfl, rfl⟩; exact hl
-        | some p =>
-          obtain ⟨b0, v0⟩ := p
-          simp only [hinit] at h'
-          split_ifs at h' with hv
-          · simp at h'; rcases h' with ⟨rfl, rfl⟩; exact hl
-          · simp at h'; rcases h' with ⟨rfl, rfl⟩; exact hi _ _ hinit
-      · exact hi _ _ h'
-  exact key _ none (by simp) b v h
-
 variable {σ : Type}
 
 theorem visit_m_cases (K : Kern σ n) (lim : ℕ) (x : PSt σ n) (u : Fin n) :
     (visit K lim x u).1.m = x.m ∨ ∃ mb : Fin n, mb.val < lim ∧ (visit K lim x u).1.m = x.m.set u mb := by
-  unfold visit
-  simp only
-  cases hA : argmaxFirst (fun t => (Vector.ofFn (gainVec K x.st u x.m[u]))[t]) lim with
-  | none => left; rfl
-  | some p =>
-    obtain ⟨mb, mx⟩ := p
-    simp only
-    by_cases hthr : thr < mx
-    · right
-      exact ⟨mb, argmaxFirst_lt _ _ _ _ hA, by simp only [hthr, if_true]⟩
-    · left
-      simp only [hthr, if_false]
+  rcases visit_cases K lim x u with ⟨_, hm, _⟩ | ⟨mb, hl, _, _, _, hm, _⟩
+  · exact Or.inl hm
+  · exact Or.inr ⟨mb, hl, hm⟩
 
 theorem visit_active (K : Kern σ n) (nh : ℕ) (x : PSt σ n) (u : Fin n) (hu : u.val < nh)
     (h : ActiveInv nh x.m) : ActiveInv nh (visit K nh x u).1.m := by
@@ -255,7 +216,8 @@ theorem passes_active (K : Kern σ n) (nh : ℕ) (fuel : ℕ) (x x' : PSt σ n) 
     | ok p =>
       obtain ⟨us, rest'⟩ := p
       simp only [hp] at h
-      have h1 := pass_active K nh us (takePerm_lt nh ds rest' us hp) x hx
+      have h1 := pass_active K nh us (takePerm_lt nh ds rest' us hp)
+        { x with g := { x.g with passNo := x.g.passNo + 1 } } hx
       split_ifs at h with hfl
       · exact ih _ _ h1 h
       · cases h
@@ -410,15 +372,15 @@ theorem clLoop_labels :
 /-- **labels_range_levels** — every level returned by the models of `modularity_louvain_und`,
 `modularity_louvain_und_sign` and `community_louvain` carries labels that are exactly `1..k`. -/
 theorem levels_labels_exact (W : RMat n) (γ : ℚ) (ds : List ℕ) (out : Out n) :
-    (louvainUnd W γ ds = .ok out → ∀ p ∈ out.levels, LabelsExact p.1) ∧
-    (∀ t : QType, louvainSign t W γ ds = .ok out → ∀ p ∈ out.levels, LabelsExact p.1) ∧
-    (∀ (obj : Objective n) (c0 : Fin n → ℤ), communityLouvain W γ obj c0 ds = .ok out →
+    (louvainUnd W γ ds g0 = .ok out → ∀ p ∈ out.levels, LabelsExact p.1) ∧
+    (∀ t : QType, louvainSign t W γ ds g0 = .ok out → ∀ p ∈ out.levels, LabelsExact p.1) ∧
+    (∀ (obj : Objective n) (c0 : Fin n → ℤ), communityLouvain W γ obj c0 ds g0 = .ok out →
       ∀ p ∈ out.levels, LabelsExact p.1) := by
   refine ⟨fun h => ?_, fun t h => ?_, fun obj c0 h => ?_⟩
   · unfold louvainUnd at h
     simp only [bind, Except.bind, pure, Except.pure] at h
     split_ifs at h with hs0
-    generalize hl : louvainUndLoop (total W) γ (ds.length + 1) W (lv0 n) ds = res at h
+    generalize hl : louvainUndLoop (total W) γ (ds.length + 1) W (lv0 n g0) ds = res at h
     cases res with
     | error e => simp at h
     | ok r =>
@@ -469,5 +431,94 @@ theorem levels_labels_exact (W : RMat n) (γ : ℚ) (ds : List ℕ) (out : Out n
           simp only [List.mem_singleton] at hp
           subst hp
           exact hall (ci, q') (by rw [hacc]; exact List.mem_cons_self)
+
+/-! ## the single-level routines -/
+
+theorem toLab_labelsExact (c : Fin n → ℤ) (l : Lab n) (h : toLab c = .ok l) : LabelsExact l := by
+  have hr : ∀ v : Fin n, (labOf l v).val = rank c v := fun v => toLab_eq c l h v
+  refine ⟨numLabels c, fun v => ⟨by omega, ?_⟩, fun k h1 h2 => ?_⟩
+  · have := rank_lt_numLabels c v; rw [hr v]; omega
+  · obtain ⟨i, hi⟩ := rank_surj c (k - 1) (by omega)
+    exact ⟨i, by rw [hr i]; omega⟩
+
+/-- **labels_range (single-level routines)** — the label vector returned by the models of
+`modularity_finetune_und`, `modularity_finetune_dir`, `modularity_finetune_und_sign` and
+`modularity_probtune_und_sign` is exactly `1..k`. -/
+theorem single_level_labels_exact (W : RMat n) (γ : ℚ) (c0 : Fin n → ℤ) (ds : List ℕ) (out : Out n) :
+    (finetuneUnd W γ c0 ds g0 = .ok out → ∀ p ∈ out.levels, LabelsExact p.1) ∧
+    (finetuneDir W γ c0 ds g0 = .ok out → ∀ p ∈ out.levels, LabelsExact p.1) ∧
+    (∀ t : QType, finetuneSign t W γ c0 ds g0 = .ok out → ∀ p ∈ out.levels, LabelsExact p.1) ∧
+    (∀ (t : QType) (pr : ℚ), probtuneSign t W γ pr c0 ds g0 = .ok out → ∀ p ∈ out.levels, LabelsExact p.1) := by
+  obtain ⟨c, hc, _⟩ := toLab_ok c0
+  refine ⟨fun h => ?_, fun h => ?_, fun t h => ?_, fun t pr h => ?_⟩
+  · unfold finetuneUnd at h
+    simp only [bind, Except.bind, pure, Except.pure] at h
+    split_ifs at h with hs0
+    simp only [hc] at h
+    generalize hp : passes (undKern n) n n (ds.length + 1) _ ds = res at h
+    cases res with
+    | error e => simp at h
+    | ok r =>
+      obtain ⟨x, rest⟩ := r
+      simp only at h
+      obtain ⟨c', hc', _⟩ := toLab_ok (labFn x.m)
+      simp only [hc'] at h
+      cases h
+      intro p hp'
+      simp only [List.mem_singleton] at hp'
+      subst hp'
+      exact toLab_labelsExact _ _ hc'
+  · unfold finetuneDir at h
+    simp only [bind, Except.bind, pure, Except.pure] at h
+    split_ifs at h with hs0
+    simp only [hc] at h
+    generalize hp : passes (dirKern n) n n (ds.length + 1) _ ds = res at h
+    cases res with
+    | error e => simp at h
+    | ok r =>
+      obtain ⟨x, rest⟩ := r
+      simp only at h
+      obtain ⟨c', hc', _⟩ := toLab_ok (labFn x.m)
+      simp only [hc'] at h
+      cases h
+      intro p hp'
+      simp only [List.mem_singleton] at hp'
+      subst hp'
+      exact toLab_labelsExact _ _ hc'
+  · unfold finetuneSign at h
+    simp only [hc, bind, Except.bind, pure, Except.pure] at h
+    generalize hp : passes (signKern n) n n (ds.length + 1) _ ds = res at h
+    cases res with
+    | error e => simp at h
+    | ok r =>
+      obtain ⟨x, rest⟩ := r
+      simp only at h
+      obtain ⟨c', hc', _⟩ := toLab_ok (labFn x.m)
+      simp only [hc'] at h
+      cases h
+      intro p hp'
+      simp only [List.mem_singleton] at hp'
+      subst hp'
+      exact toLab_labelsExact _ _ hc'
+  · unfold probtuneSign at h
+    simp only [hc, bind, Except.bind, pure, Except.pure] at h
+    cases ht : takePerm n n ds with
+    | error e => simp [ht] at h
+    | ok r =>
+      obtain ⟨us, rest⟩ := r
+      simp only [ht] at h
+      generalize hp : probLoop pr us _ rest = res at h
+      cases res with
+      | error e => simp at h
+      | ok r2 =>
+        obtain ⟨x, rest2⟩ := r2
+        simp only at h
+        obtain ⟨c', hc', _⟩ := toLab_ok (labFn x.m)
+        simp only [hc'] at h
+        cases h
+        intro p hp'
+        simp only [List.mem_singleton] at hp'
+        subst hp'
+        exact toLab_labelsExact _ _ hc'
 
 end Bct.Modularity
